@@ -99,7 +99,7 @@ class Args(object):
         argument = self._fmt.get_argument(name)
 
         if argument.name in self._arguments:
-            return self._arguments[name]
+            return self._arguments[argument.name]
 
         return argument.default
 
